@@ -171,7 +171,7 @@ type c16Case struct {
 
 var c16Keywords = []string{"select", "insert", "delete", "create", "construct", "deconstruct", "drop", "graph", "data", "into", "from", "where", "as", "type", "id", "at", "in", "before", "after", "between", "count", "distinct", "sum", "group", "by", "order", "having", "asc", "desc", "limit", "not", "and", "or", "show", "graphs", "optional", "filter"}
 
-var c16Lexemes = []string{"?x", "?foo_1", "/u<a>", "/t/x<a b>", "_:v", "\"p\"@[]", "\"p\"@[2006-01-02T15:04:05Z]", "\"p\"@[2006-01-02T15:04:05Z,2007-01-02T15:04:05Z]", "\"p\"@[,]", "\"p\"@[,,]", "\"p\"@[2006-01-02T15:04:05Z,2007-01-02T15:04:05Z,]", "\"\"@[,,,]", "\"p\"@[?a,?b]", "\"1\"^^type:int64", "\"x y\"^^type:text", "\"true\"^^TYPE:BOOL", "\"[1 2]\"^^type:blob", "\"1.5\"^^type:Float64", "{", "}", "(", ")", ".", ";", ",", "<", ">", "=", "2006-01-02T15:04:05Z", "2006-01-02T15:04:05.5+01:00,2007-01-02T15:04:05Z", "latest", "isTemporal", "latest(", "#", "\\", "\"", "\"unterminated", "/t<unterminated", "_:", "_x", "?", "@[", "^^type:", "1", "é", "世"}
+var c16Lexemes = []string{"?x", "?foo_1", "?_", "?_x1", "?1", "?é", "/u<a>", "/t/x<a b>", "_:v", "\"p\"@[]", "\"p\"@[2006-01-02T15:04:05Z]", "\"p\"@[2006-01-02T15:04:05Z,2007-01-02T15:04:05Z]", "\"p\"@[,]", "\"p\"@[,,]", "\"p\"@[2006-01-02T15:04:05Z,2007-01-02T15:04:05Z,]", "\"\"@[,,,]", "\"p\"@[?a,?b]", "\"1\"^^type:int64", "\"x y\"^^type:text", "\"true\"^^TYPE:BOOL", "\"[1 2]\"^^type:blob", "\"1.5\"^^type:Float64", "{", "}", "(", ")", ".", ";", ",", "<", ">", "=", "2006-01-02T15:04:05Z", "2006-01-02T15:04:05.5+01:00,2007-01-02T15:04:05Z", "latest", "isTemporal", "latest(", "#", "\\", "\"", "\"unterminated", "/t<unterminated", "_:", "_x", "?", "@[", "^^type:", "1", "é", "世"}
 
 func genStatementish(t *rapid.T) string {
 	n := rapid.IntRange(0, 14).Draw(t, "ntok")
@@ -242,10 +242,12 @@ func genC16(t *rapid.T) c16Case {
 			l := gen.Lit(true).Draw(t, "l")
 			a.L, want = &l, "LITERAL"
 		default:
-			nm := rapid.StringMatching(`[A-Za-z][A-Za-z0-9_]{0,6}`).Draw(t, "name")
+			nm := rapid.StringMatching(`[A-Za-zé世][A-Za-z0-9_é世]{0,6}`).Draw(t, "name")
 			switch rapid.IntRange(0, 2).Draw(t, "bk") {
 			case 0:
-				return c16Case{Src: "printed-value", In: "?" + nm + " ", Want: "BINDING"}
+				// a binding name is any run of letters, digits and underscores: it may start with any of them
+				bn := rapid.StringMatching(`[A-Za-z0-9_é世]{1,7}`).Draw(t, "bname")
+				return c16Case{Src: "printed-value", In: "?" + bn + " ", Want: "BINDING"}
 			case 1:
 				return c16Case{Src: "printed-value", In: "_:" + nm + " ", Want: "BLANK_NODE"}
 			default:
